@@ -96,7 +96,7 @@ func genLeaf(r *Rng, typ jsonapi.Type, vals map[string]any, o *Out) *jsonapi.Fil
 			ids = append(ids, idPool[r.IntN(len(idPool))])
 		}
 	}
-	if ids == nil {
+	if ids == nil && r.bool() { // an empty set is given as a nil or as an empty slice
 		ids = []string{}
 	}
 	o.stat("rel.tomany")
